@@ -45,12 +45,20 @@ int h_alloc_fails(uint64_t n);
  * access / memcpy / memset against it. */
 uint8_t ll2c_req[1024];
 static uint8_t* env_raw_alloc(uint64_t n) {
+#ifdef ENV_NO_SHADOW
+  /* harnesses translated without --heapcheck may use large objects: no requested-size shadow is kept */
+  ENV_ENGINE_ASSERT(n <= ENV_MALLOC_CAP, "allocation larger than ENV_MALLOC_CAP (bound too small)");
+  uint8_t* p = malloc(ENV_MALLOC_CAP);
+  __CPROVER_assume(p != 0);
+  return p;
+#else
   ENV_ENGINE_ASSERT(n <= ENV_MALLOC_CAP && n < 255, "allocation larger than ENV_MALLOC_CAP (bound too small)");
   uint8_t* p = malloc(ENV_MALLOC_CAP);
   __CPROVER_assume(p != 0);
   ENV_ENGINE_ASSERT(__CPROVER_POINTER_OBJECT(p) < 1024, "object numbers fit the shadow table");
   ll2c_req[__CPROVER_POINTER_OBJECT(p) & 1023] = (uint8_t)(n + 1);
   return p;
+#endif
 }
 static void env_raw_free(uint8_t* p) { free(p); }
 static uint64_t env_raw_size(uint8_t* p) { return ll2c_req[__CPROVER_POINTER_OBJECT(p) & 1023] - 1; }
